@@ -44,7 +44,7 @@ func plans() map[string][]streamPlan {
 		"C11": {{"errctx", errCtxCount(true), errCtxCount(true)}, {"expr", 8000, 300000}, {"proj", 4000, 100000}, {"pairs", pairCount(), pairCount()}},
 		"C13": {{"api", 3000, 120000}, {"expr", 4000, 100000}, {"pairs", 40000, pairCount()}, {"typed", 1500, 60000}},
 		"C14": {{"ident", identExhaustive(2) + 8000, identExhaustive(2) + 300000}, {"unquoted", unquotedCount(), unquotedCount()}, {"spelling", 5000, 100000}, {"jsoncodec", 4000, 100000}, {"edge", edgeCount(), edgeCount()}},
-		"C15": {{"pipe", 15000, 400000}, {"subst", 10000, 300000}, {"depth", depthCount(), depthCount()}, {"pairs", pairCount(), pairCount()}},
+		"C15": {{"pipe", 15000, 400000}, {"subst", 10000, 300000}, {"depth", depthCount(), depthCount()}, {"pairs", pairCount(), pairCount()}, {"typed", 1500, 60000}},
 		"C16": {{"jsonish", 4000, 100000}, {"expr", 15000, 300000}, {"fn", 10000, 200000}, {"jsoncodec", 3000, 100000}, {"edge", edgeCount(), edgeCount()}, {"pairs", pairCount(), pairCount()}},
 		"C17": {{"bytes", 20000, 500000}, {"syntax-enum", syntaxEnumCount(3), syntaxEnumCount(4)}, {"syntax", 8000, 200000}},
 		"C18": {{"typed", 8000, 300000}, {"typedmodel", 4000, 150000}},
